@@ -129,10 +129,10 @@ func (tree *Rtree) chooseNode(n *node, e entry, level int) *node {
 	diff := math.MaxFloat64
 	var chosen entry
 	var bb geom.Bounds
-	for _, en := range n.entries {
+	for i, en := range n.entries {
 		initBoundingBox(&bb, en.bb, e.bb)
 		d := size(&bb) - size(en.bb)
-		if d < diff || (d == diff && size(en.bb) < size(chosen.bb)) {
+		if i == 0 || d < diff || (d == diff && size(en.bb) < size(chosen.bb)) {
 			diff = d
 			chosen = en
 		}
